@@ -8,7 +8,7 @@
 (* the replay: it is recorded in `vBad` with a cause tag, the state is      *)
 (* re-synchronised from the logged outcome and validation goes on.         *)
 (***************************************************************************)
-EXTENDS Find, Json, IOUtils, TLC
+EXTENDS Find, Format, TzString, Json, IOUtils, TLC
 
 Rec == ndJsonDeserialize(IOEnv.TRACE)
 NRec == Len(Rec)
@@ -117,8 +117,41 @@ VFindN(e) ==
   ELSE IF Has(e.r.res, "panic") \/ Has(e.r.full, "panic") THEN {"panic"}
   ELSE FindTags(vZone, e.a, e.a.ns, e.r.full) \cup FindNTags(vBuf, e.a.n, e.r)
 
+\* ---- C18 ----
+OffType(off) == [off |-> off, dst |-> 0, des |-> <<>>]
+VRender(e) ==
+  LET a == e.a IN
+  IF a.via = "utc" THEN
+       LET o == Timegm(a.y, a.mo, a.d, a.h, a.mi, a.s, a.ns) IN
+       Judge(e.r, IF o.ok = {} THEN o ELSE OutOk([text |-> Render(a.y, a.mo, a.d, a.h, a.mi, a.s, a.ns, 0)]))
+  ELSE IF a.off = I32Min THEN Judge(e.r, OutErr("LocalTimeType.InvalidUtcOffset"))
+  ELSE LET o == NewDt(a.y, a.mo, a.d, a.h, a.mi, a.s, a.ns, OffType(a.off)) IN
+       Judge(e.r, IF o.ok = {} THEN o ELSE Out({[text |-> Render(a.y, a.mo, a.d, a.h, a.mi, a.s, a.ns, a.off), dt |-> v] : v \in o.ok}, o.err))
+VRenderT(e) ==
+  IF e.a.off = I32Min THEN Judge(e.r, OutErr("LocalTimeType.InvalidUtcOffset"))
+  ELSE LET o == FromLocal(WToCDS(e.a.t), e.a.ns, OffType(e.a.off)) IN
+       Judge(e.r, Out({[text |-> Render(v.y, v.mo, v.d, v.h, v.mi, v.s, v.ns, e.a.off), dt |-> v] : v \in o.ok}, o.err))
+       \cup (IF Has(e.r, "ok") /\ ~WellShaped(e.r.ok.text, e.a.off) THEN {"C18-shape"} ELSE {})
+       \cup (IF Has(e.r, "ok") /\ WellShaped(e.r.ok.text, e.a.off) /\
+              Read(e.r.ok.text) # [y |-> e.r.ok.dt.y, mo |-> e.r.ok.dt.mo, d |-> e.r.ok.dt.d, h |-> e.r.ok.dt.h, mi |-> e.r.ok.dt.mi, s |-> e.r.ok.dt.s, ns |-> e.r.ok.dt.ns, off |-> e.a.off]
+           THEN {"C18-reader-disagrees"} ELSE {})
+
+\* ---- C09 ----
+VTzString(e) ==
+  IF Has(e.r, "panic") THEN {"panic"} ELSE IF Has(e.r, "arg") THEN {"generator-error"}
+  ELSE LET s == TrimWs(e.a.s) via == e.a.via IN
+       IF s = <<>> THEN (IF via = "settings" THEN (IF Has(e.r, "err") THEN {} ELSE {"C09-accepted-but-not-a-sentence"})
+                         ELSE Judge(e.r, OutOk([rule |-> [k |-> "none"], ntypes |-> 1, ntr |-> 0])))
+       ELSE LET p == ParseTz(s, via = "v3") IN
+            IF ~p.ok THEN (IF Has(e.r, "err") THEN {} ELSE {"C09-accepted-but-not-a-sentence"})
+            ELSE IF Has(e.r, "err") THEN {"C09-sentence-refused"}
+            ELSE IF e.r.ok = [rule |-> p.rule, ntypes |-> IF via = "settings" /\ p.rule.k = "alt" THEN 2 ELSE 1, ntr |-> 0] THEN {} ELSE {"C09-wrong-rule"}
+
 Verdict(e) ==
   CASE e.op = "gmtime" -> VGmtime(e)
+    [] e.op = "tzstring" -> VTzString(e)
+    [] e.op = "render" -> VRender(e)
+    [] e.op = "rendert" -> VRenderT(e)
     [] e.op = "timegm" -> VTimegm(e)
     [] e.op = "utccmp" -> VUtcCmp(e)
     [] e.op = "fromnanos" -> VFromNanos(e)
